@@ -24,3 +24,27 @@ ob("Hclose", ["C13", "C16"], entry="h_Hclose", enforce="Hclose", **HF)
 prop("C01",
      residual="composition over histories (several handles, reopen, promotion followed by reads of old data, external file contents); HLconvert/HLcreate end-to-end; hbuffer.c",
      assumptions=["ghost disk: one stream, bytes tracked at one arbitrary offset", "HTPinquire/HTPupdate stubs give the DD the access record is attached to"])
+
+prop("C13",
+     residual="V/VS/GR/AN/SD instance tables and their id spaces; repeated opens of one path; library re-initialisation; "
+              "wrong-kind ids (HAatom_object does not check the group: a file id passed where an access id is expected is "
+              "type-confused -- assumed away as A-KIND in the H-layer contracts); SD ids carry no generation",
+     assumptions=["A-KIND: callers pass identifiers of the right kind to Hread/Hwrite/Hseek/... (the H layer does not check the atom group)",
+                  "A-ALLOC: HAregister_atom/malloc do not fail (no property quantifies over allocation failure)",
+                  "A-ATOMWRAP: fewer than 2^28 atoms are registered per group (no wrap guard on nextid)",
+                  "A-HASHSIZE: atom hash sizes are powers of two <= 2^28 (all callers pass 16..256)",
+                  "A-SHIFT: MAKE_ATOM(8, i) shifts into the sign bit (ISO C UB); two's-complement result assumed, as gcc/clang give",
+                  "A-ATOMS-WF: bucket/cache representation invariant of atom.c assumed on entry and re-established by each operation (units/atom_u.c)"])
+prop("C16",
+     residual="V/VS/SD/GR close paths (Vdetach, HMCPcloseAID/mcache_sync) and the netCDF layer; 'byte-identical when all calls "
+              "succeed'; hangs (termination is not proved); allocation failures",
+     assumptions=["every stdio call may fail independently (single and sticky faults are both covered by the nondeterministic choice)",
+                  "after a failed stdio call the stream position is indeterminate"])
+prop("C17",
+     residual="Vdata/Vgroup header rewrite to new space, SD delete-then-append metadata, reopening each crash-prefix image (a whole-file "
+              "relation); the element data writes of V/SD/GR layers",
+     assumptions=["each library-level write (HP_write) is atomic and ordered, as the property states",
+                  "low-water mark g_L = end of file at session start; the session has descriptor caching on"])
+prop("C20",
+     residual="open-file table limits, 32/33 dimensions, name-length limits outside the units listed, usability of the file after a refused request",
+     assumptions=["file size limit enforced as f_end_off <= 2^31-2 (one byte conservative: HIextend_file writes one byte at f_end_off)"])
